@@ -1,17 +1,20 @@
 """C13 — stream tokens are bound to the method that minted them.
 
 xh (ideal AEAD, recording fakes for Arrow and user code): the repository's own
-`_run_stream_init_sync` mints a stream's tokens for method m0 (any of six methods: two sharing a
-state class with call state, two sharing another class, a producer, a union); after 0..1 regular
-turns at m0 the current tokens are presented to `_run_stream_exchange_sync` of method m (any of the
-six), as a regular continuation or as a cancel, on a warm or a cold worker.
+`_run_stream_init_sync` mints a stream's tokens for method m0 (any of eight methods: two sharing a
+state class with call state, two sharing another class, a producer, a union, two long names with a
+common prefix); after 0..1 regular turns at m0 the current tokens are presented to
+`_run_stream_exchange_sync` of method m (any of the eight), as a regular continuation or as a cancel,
+on a warm or a cold worker.
 
 Asserted: the request is processed (turn dispatched / on_cancel run) <=> m == m0; a foreign endpoint
-answers 400 and runs no user code.
+rejects it (a client error) and runs no user code.  Wording, cause class and the exact 4xx status of the
+rejection are not looked at.
 
-EXPECTED GENUINE DEFECT: neither token's plaintext nor its AAD carries the method name, and the
-call-state cache key does not either, so every method whose state class can decode the cursor serves
-another method's stream.  Replay: real two-method service through the sync HTTP client.
+History: the first run found the genuine defect this property is about (no method name in either token
+or in the cache key; fixed in the repository, signature C13:cross-method:accepted).  Replay: real
+multi-method service through the sync HTTP client - only a request that provably went to the other
+method's /exchange URL is judged.
 """
 
 from __future__ import annotations
